@@ -157,8 +157,21 @@ def history(rng, nops=(2, 8), invalid_share=0.3, dtype_focus=False):
                 ops.append({"op": "invalid", "what": "merge_frac", "h": h})
             continue
         kind = rng.choice(["fill", "fill", "fill_n", "fill_n", "iadd", "add", "imul", "mul", "idiv", "div", "normalize",
-                           "merge", "set_dtype", "copy", "slice", "sub"])
+                           "merge", "set_dtype", "copy", "slice", "sub", "set_arr"])
         tags.append(kind)
+        if kind == "set_arr":
+            # the public property setters `h.frequencies = array` / `h.errors2 = array` with an array of any element type
+            # (right length known only for static bins; a wrong length / a negative entry is refused)
+            k = rng.choice(["int16", "int32", "int64", "float32", "float64"])
+            nb = len(pairs) if pairs else rng.randint(1, 4)
+            if rng.random() < 0.1:
+                nb += 1
+            vals = [rng.randint(0, 9) if k.startswith("int") else rng.randint(0, 36) / 4 for _ in range(nb)]
+            if rng.random() < 0.08 and vals:
+                vals[rng.randrange(len(vals))] = -1
+            ops.append({"op": rng.choice(["set_freq", "set_err2"]), "h": h, "vals": [rs(x) for x in vals], "k": k,
+                        "maybe_refused": True})
+            continue
         if kind == "fill":
             v = vals_near(rng, b, pairs, w, 1)[0]
             wt, wk = rng.choice([(1, "pyint"), (1, "pyint"), (2, "pyint"), (0.5, "pyfloat"), (1.0, "pyfloat"), (2, "int32"), (1.5, "float32")])
